@@ -8,6 +8,6 @@ for d in /verif/seeded/*/; do
   [ $((i % n)) -eq $k ] || continue
   grep -q "^$sid " /tmp/regress.log 2>/dev/null && continue
   t=$(python3 -c "import json;print(json.load(open('/verif/seeded/$sid/meta.json'))['breaks_property'])")
-  out=$(/verif/bin/mutant_re.sh $sid $t 2>&1)
+  out=$(FAST=1 /verif/bin/mutant_re.sh $sid $t 2>&1)
   if echo "$out" | grep -q '"caught_by_target": true'; then echo "$sid caught" >> /tmp/regress.log; else echo "$sid MISSED" >> /tmp/regress.log; fi
 done
